@@ -469,4 +469,162 @@ theorem snapshot_tiles {T : Table} (h : TInv T) :
     | nil => simp [Tiles, rowsOf_append]; omega
     | cons b bs => simp [Tiles, Part.len, rowsOf_append]; omega
 
+/-! ### Partition objects keep their identity: an id is never given to different rows -/
+
+/-- Same partition object as far as content goes (residency may differ). -/
+def Same (p p' : Part) : Prop := p.id = p'.id ∧ p.batches = p'.batches ∧ p.offset = p'.offset
+
+/-- What one table step does to the partition map: every partition afterwards is an old one (same id, rows, offset) or
+    carries an id that had not been handed out before; `next_partition_id` never goes back. -/
+def TStep (T T' : Table) : Prop :=
+  T.nextId ≤ T'.nextId ∧ ∀ p' ∈ T'.parts, (∃ p ∈ T.parts, Same p p') ∨ T.nextId ≤ p'.id
+
+theorem TStep_of_parts_eq {T T' : Table} (hp : T'.parts = T.parts) (hn : T'.nextId = T.nextId) : TStep T T' := by
+  refine ⟨by rw [hn]; exact Nat.le_refl _, ?_⟩
+  intro p' hp'
+  rw [hp] at hp'
+  exact Or.inl ⟨p', hp', rfl, rfl, rfl⟩
+
+theorem TStep_refl (T : Table) : TStep T T := TStep_of_parts_eq rfl rfl
+
+theorem TStep_batch (T : Table) : TStep T T.batch := by
+  unfold Table.batch
+  split
+  · exact TStep_refl T
+  · refine ⟨Nat.le_succ _, ?_⟩
+    intro p' hp'
+    simp only [List.mem_append, List.mem_singleton] at hp'
+    rcases hp' with h | h
+    · exact Or.inl ⟨p', h, rfl, rfl, rfl⟩
+    · subst h; exact Or.inr (Nat.le_refl _)
+
+theorem TStep_setResident (T : Table) (pid : Nat) (r : Bool) : TStep T (T.setResident pid r) := by
+  refine ⟨Nat.le_refl _, ?_⟩
+  intro p' hp'
+  simp only [Table.setResident, List.mem_map] at hp'
+  obtain ⟨q, hq, rfl⟩ := hp'
+  refine Or.inl ⟨q, hq, ?_⟩
+  split <;> exact ⟨rfl, rfl, rfl⟩
+
+theorem TStep_compact {T T' : Table} {i n : Nat} (hc : T.compact i n = some T') : TStep T T' := by
+  unfold Table.compact at hc
+  simp only at hc
+  split at hc
+  · exact absurd hc (by simp)
+  · split at hc
+    · injection hc with hc
+      subst hc
+      refine ⟨Nat.le_succ _, ?_⟩
+      intro p' hp'
+      simp only [List.mem_append, List.mem_singleton] at hp'
+      rcases hp' with (h | h) | h
+      · exact Or.inl ⟨p', List.mem_of_mem_take h, rfl, rfl, rfl⟩
+      · subst h; exact Or.inr (Nat.le_refl _)
+      · exact Or.inl ⟨p', List.mem_of_mem_drop (List.mem_of_mem_drop h), rfl, rfl, rfl⟩
+    · exact absurd hc (by simp)
+
+theorem TStep_trans {A B C : Table} (h1 : TStep A B) (h2 : TStep B C) : TStep A C := by
+  refine ⟨Nat.le_trans h1.1 h2.1, ?_⟩
+  intro p'' hp''
+  rcases h2.2 p'' hp'' with ⟨p', hp', hs'⟩ | h
+  · rcases h1.2 p' hp' with ⟨p, hp, hs⟩ | h
+    · exact Or.inl ⟨p, hp, hs.1.trans hs'.1, hs.2.1.trans hs'.2.1, hs.2.2.trans hs'.2.2⟩
+    · exact Or.inr (by rw [← hs'.1]; exact h)
+  · exact Or.inr (Nat.le_trans h1.1 h)
+
+theorem TStep_apply {s s' : State} (a : Act) (ha : apply s a = some s') (t : Nat) : TStep (s.tabs t) (s'.tabs t) := by
+  cases a with
+  | ingestBegin req shares =>
+    simp only [apply] at ha; split at ha
+    · injection ha with ha; subst ha; exact TStep_refl _
+    · exact absurd ha (by simp)
+  | ingestShare =>
+    simp only [apply] at ha; split at ha
+    · injection ha with ha; subst ha
+      rw [setTab_tabs]; split
+      · rename_i h; subst h; exact TStep_of_parts_eq rfl rfl
+      · exact TStep_refl _
+    · exact absurd ha (by simp)
+  | ingestEnd =>
+    simp only [apply] at ha; split at ha
+    · injection ha with ha; subst ha; exact TStep_of_parts_eq rfl rfl
+    · exact absurd ha (by simp)
+  | freeze =>
+    simp only [apply] at ha; split at ha
+    · split at ha
+      · injection ha with ha; subst ha
+        simp only; split
+        · exact TStep_of_parts_eq rfl rfl
+        · exact TStep_refl _
+      · injection ha with ha; subst ha; exact TStep_refl _
+    · exact absurd ha (by simp)
+  | batch u =>
+    simp only [apply] at ha; split at ha
+    · injection ha with ha; subst ha
+      rw [setTab_tabs]; split
+      · rename_i h; subst h; exact TStep_batch _
+      · exact TStep_refl _
+    · exact absurd ha (by simp)
+  | compactSwap u i n =>
+    simp only [apply] at ha; split at ha
+    · cases hc : Table.compact (s.tabs u) i n with
+      | none => simp [hc] at ha
+      | some T' =>
+        simp only [hc, Option.map_some] at ha
+        injection ha with ha; subst ha
+        rw [setTab_tabs]; split
+        · rename_i h; subst h; exact TStep_compact hc
+        · exact TStep_refl _
+    · exact absurd ha (by simp)
+  | flushEnd =>
+    simp only [apply] at ha; split at ha
+    · injection ha with ha; subst ha; exact TStep_refl _
+    · exact absurd ha (by simp)
+  | evict u pid =>
+    simp only [apply] at ha; injection ha with ha; subst ha
+    rw [setTab_tabs]; split
+    · rename_i h; subst h; exact TStep_setResident _ _ _
+    · exact TStep_refl _
+  | load u pid =>
+    simp only [apply] at ha; injection ha with ha; subst ha
+    rw [setTab_tabs]; split
+    · rename_i h; subst h; exact TStep_setResident _ _ _
+    · exact TStep_refl _
+  | snapshot u =>
+    simp only [apply] at ha; injection ha with ha; subst ha; exact TStep_refl _
+
+theorem TStep_steps {s s' : State} (h : Steps s s') (t : Nat) : TStep (s.tabs t) (s'.tabs t) := by
+  induction h with
+  | refl => exact TStep_refl _
+  | step _ a ha ih => exact TStep_trans ih (TStep_apply a ha t)
+
+theorem eq_of_nodup_ids {ps : List Part} (hn : (ps.map (·.id)).Nodup) {p q : Part} (hp : p ∈ ps) (hq : q ∈ ps)
+    (h : p.id = q.id) : p = q := by
+  induction ps with
+  | nil => cases hp
+  | cons x xs ih =>
+    simp only [List.map_cons, List.nodup_cons] at hn
+    cases hp with
+    | head =>
+      cases hq with
+      | head => rfl
+      | tail _ hq' => exact absurd (List.mem_map.mpr ⟨q, hq', h.symm⟩) hn.1
+    | tail _ hp' =>
+      cases hq with
+      | head => exact absurd (List.mem_map.mpr ⟨p, hp', h⟩) hn.1
+      | tail _ hq' => exact ih hn.2 hp' hq'
+
+/-- Every successful `run` is a run of the interleaving semantics. -/
+theorem steps_of_run (as : List Act) (s0 s s' : State) (hs : Steps s0 s) (h : run s as = some s') : Steps s0 s' := by
+  induction as generalizing s with
+  | nil => simp only [run] at h; injection h with h; subst h; exact hs
+  | cons a as ih =>
+    simp only [run] at h
+    cases ha : apply s a with
+    | none => simp [ha] at h
+    | some s1 => simp only [ha, Option.bind_some] at h; exact ih s1 (Steps.step hs a ha) h
+
+theorem reachable_of_run (as : List Act) (s : State) (h : run init as = some s) : Reachable s :=
+  steps_of_run as init init s (Steps.refl _) h
+
 end LM.Conc.Flush
